@@ -139,7 +139,7 @@ class C15(Prop):
         names, types = tr.names, tr.types
         uniq = tr.unique()
         bad = rng.random() < .05         # deliberately missing / ambiguous reference
-        amb = [n for n in set(names) if names.count(n) > 1]
+        amb = sorted(n for n in set(names) if names.count(n) > 1)
 
         def ref(pool=None):
             if bad:
@@ -721,10 +721,12 @@ class C15(Prop):
                 if 'refused' in r:
                     ctx.note('refused:' + r['refused'])
                     return None          # both sides reject the operation: no DataFrame was obtained
-                if k in ('withColumn', 'dropRef') and self.id_duplicates(df):
-                    # replacing a column re-selects every field by its internal id; two columns that stem from the same
-                    # source field (select('*', '*'), self join) share an id and make that ambiguous. Ids are not modelled.
-                    ctx.note('withColumn-id-ambiguity')
+                if k == 'dropRef' and self.id_duplicates(df):
+                    # two columns that stem from the same source field (select('*', '*'), self join) share an internal id,
+                    # which makes a BOUND reference to one of them ambiguous. Ids are not modelled. (withColumn used to be
+                    # exempted here as well: it re-selected every untouched field by its id - a defect, repaired in c4f04bd,
+                    # found by the third hunt of C12; it goes by position now and is compared like every other step.)
+                    ctx.note('dropRef-id-ambiguity')
                     return None
                 return Mismatch('step %d %s raised but the model computes a frame' % (step, k), err, {'names': r['names']},
                                 'C15:model:exc:' + k, relation='model-only')
